@@ -224,7 +224,11 @@ class ExprMixin:
                 isinstance(r_, (ast.Tuple, ast.List)) and r_.elts and
                 all(isinstance(c_, (ast.Lambda, ast.Constant)) or (isinstance(c_, ast.Name) and c_.id in m.functions) for c_ in r_.elts)
                 and any(isinstance(c_, ast.Lambda) or isinstance(c_, ast.Name) for c_ in r_.elts) for r_ in val.elts)
-            if seq_of_callables or rows_of_callables or nested_table(val) or isinstance(val, ast.Dict) and val.keys and all(k is not None and isinstance(k, ast.Constant) for k in val.keys) and \
+            record_table = isinstance(val, ast.Dict) and val.keys and all(k is not None and isinstance(k, ast.Constant) for k in val.keys) and \
+                all(isinstance(v_, ast.Call) and isinstance(v_.func, ast.Name) and namedtuple_fields(m, v_.func.id)
+                    and all(_table_expr(a_) for a_ in v_.args) and all(k_.arg is not None and _table_expr(k_.value) for k_ in v_.keywords)
+                    for v_ in val.values)                # {'mask': Settings(order=0, mode='constant'), ...}: constant records by name
+            if seq_of_callables or rows_of_callables or record_table or nested_table(val) or isinstance(val, ast.Dict) and val.keys and all(k is not None and isinstance(k, ast.Constant) for k in val.keys) and \
                     all(isinstance(v_, (ast.Lambda, ast.Name, ast.Attribute)) for v_ in val.values) and \
                     (any(isinstance(v_, ast.Lambda) for v_ in val.values) or
                      all(isinstance(v_, ast.Name) and v_.id in m.functions for v_ in val.values)):
